@@ -846,8 +846,11 @@ func replay(path string) int {
 		}
 		mustCtx, _ := d["mustCtx"].(bool)
 		cc := ccase{class: strings.TrimSuffix(doc.Failure.Class, "/"+mode), src: src, mode: mode, lines: num("lines"), kmin: num("kmin"), mustCtx: mustCtx, printsTo: num("printsTo")}
-		e := c.run("exec", cc.lines)
 		x := c.run(mode, cc.lines)
+		e := obs{kind: "none", out: x.out, recs: x.recs, flushed: true}
+		if !strings.Contains(src, "while (1)") { // the uncancelled run exists
+			e = c.run("exec", cc.lines)
+		}
 		fmt.Printf("Execute:        %s\nExecuteContext: %s\n", e, x)
 		ck.oracle(cc, c, e, x)
 	}
